@@ -537,6 +537,7 @@ impl Sim {
             self.event_log
                 .push((acc.attrs.clone(), sender.to_string(), self.chain.height));
             self.c17_shadow(&kind);
+            self.c17_truth(&req, &kind, &acc, &res, &book_pre, &cfg_pre);
             self.track_freeze(&book_pre);
             self.c12_relational(&req, &kind, &exp);
             // abstract state / transition coverage
@@ -1590,6 +1591,108 @@ impl Sim {
             self.flag(&["C17"], "C17.shadow_book", kind, "", diffs.join("; "));
             // resynchronise so one divergence is reported once
             self.resync_shadow();
+        }
+    }
+
+    /// C17, model-free: the amounts a response reports against what the ledger and the book show
+    fn c17_truth(&mut self, req: &Req, kind: &str, acc: &Accepted, res: &TxResult, book_pre: &Book, cfg_pre: &Cfg) {
+        let attr = |k: &str| acc.attrs.iter().find(|(a, _)| a == k).map(|(_, v)| v.clone());
+        let num = |k: &str| attr(k).and_then(|v| v.parse::<u128>().ok());
+        let got = |acct: &str, denom: &str| -> i128 {
+            *res.deltas.get(&(acct.to_string(), denom.to_string())).unwrap_or(&0)
+        };
+        let contract = self.chain.contract.clone();
+        let mut bad: Vec<String> = vec![];
+        match req {
+            Req::ExpireAsk { id } | Req::RejectAsk { id, .. } => {
+                if let (Some(a), Some(r)) = (book_pre.asks.get(id), num("reverse_size")) {
+                    let after = self.book.asks.get(id).map(|x| x.size).unwrap_or(0);
+                    if a.size.saturating_sub(after) != r {
+                        bad.push(format!("reverse_size={} but the ask's size fell by {}", r, a.size.saturating_sub(after)));
+                    }
+                    // what actually went back, per depositor
+                    if a.owner != contract {
+                        let approver_same = matches!(&a.class, AskClass::Ready { approver, cb_denom, .. } if approver == &a.owner && cb_denom == &a.base);
+                        if !approver_same && got(&a.owner, &a.base) != r as i128 {
+                            bad.push(format!("reverse_size={} but {} {} went back to the owner", r, got(&a.owner, &a.base), a.base));
+                        }
+                    }
+                    if let AskClass::Ready { approver, cb_denom, .. } = &a.class {
+                        if !(approver == &a.owner && cb_denom == &a.base) && got(approver, cb_denom) != r as i128 {
+                            bad.push(format!("reverse_size={} but {} {} went back to the approver", r, got(approver, cb_denom), cb_denom));
+                        }
+                    }
+                    let open = attr("order_open");
+                    let on_book = self.book.asks.contains_key(id);
+                    if open.as_deref() != Some(if on_book { "true" } else { "false" }) {
+                        bad.push(format!("order_open={:?} but the ask is {} the book", open, if on_book { "still on" } else { "off" }));
+                    }
+                }
+            }
+            Req::CancelBid { id } | Req::ExpireBid { id } | Req::RejectBid { id, .. } => {
+                if let (Some(b), Some(r)) = (book_pre.bids.get(id), num("reverse_size")) {
+                    let after = self.book.bids.get(id).map(|x| x.unfilled()).unwrap_or(0);
+                    if b.unfilled().saturating_sub(after) != r {
+                        bad.push(format!("reverse_size={} but the bid's unfilled size fell by {}", r, b.unfilled().saturating_sub(after)));
+                    }
+                    let open = attr("order_open");
+                    let on_book = self.book.bids.contains_key(id);
+                    if open.as_deref() != Some(if on_book { "true" } else { "false" }) {
+                        bad.push(format!("order_open={:?} but the bid is {} the book", open, if on_book { "still on" } else { "off" }));
+                    }
+                }
+            }
+            Req::ExecuteMatch { ask_id, bid_id, .. } => {
+                if let (Some(a), Some(b)) = (book_pre.asks.get(ask_id), book_pre.bids.get(bid_id)) {
+                    let seller: String = match &a.class {
+                        AskClass::Ready { approver, .. } => approver.clone(),
+                        _ => a.owner.clone(),
+                    };
+                    let others = |x: &str, rest: &[&str]| rest.iter().all(|y| *y != x);
+                    let af_acct = cfg_pre.ask_fee.as_ref().map(|f| f.account.clone());
+                    let bf_acct = cfg_pre.bid_fee.as_ref().map(|f| f.account.clone());
+                    if let Some(sz) = num("size") {
+                        let a_after = self.book.asks.get(ask_id).map(|x| x.size).unwrap_or(0);
+                        let b_after = self.book.bids.get(bid_id).map(|x| x.unfilled()).unwrap_or(0);
+                        if a.size.saturating_sub(a_after) != sz || b.unfilled().saturating_sub(b_after) != sz {
+                            bad.push(format!("size={} but the orders fell by {} / {}", sz, a.size.saturating_sub(a_after), b.unfilled().saturating_sub(b_after)));
+                        }
+                        if others(&b.owner, &[&seller, &a.owner, &contract]) && got(&b.owner, &cfg_pre.base_denom) != sz as i128 {
+                            bad.push(format!("size={} but the buyer received {} {}", sz, got(&b.owner, &cfg_pre.base_denom), cfg_pre.base_denom));
+                        }
+                    }
+                    if let (Some(f), Some(acct)) = (num("ask_fee"), &af_acct) {
+                        let mut rest: Vec<&str> = vec![&seller, &a.owner, &b.owner, &contract];
+                        if let Some(x) = &bf_acct {
+                            rest.push(x);
+                        }
+                        if others(acct, &rest) && got(acct, &b.quote_denom) != f as i128 {
+                            bad.push(format!("ask_fee={} but the ask-fee account received {}", f, got(acct, &b.quote_denom)));
+                        }
+                    } else if let Some(f) = num("ask_fee") {
+                        if f != 0 {
+                            bad.push(format!("ask_fee={} reported without an ask-fee account", f));
+                        }
+                    }
+                    if let (Some(f), Some(acct)) = (num("bid_fee"), &bf_acct) {
+                        let mut rest: Vec<&str> = vec![&seller, &a.owner, &b.owner, &contract];
+                        if let Some(x) = &af_acct {
+                            rest.push(x);
+                        }
+                        if others(acct, &rest) && got(acct, &b.quote_denom) != f as i128 {
+                            bad.push(format!("bid_fee={} but the bid-fee account received {}", f, got(acct, &b.quote_denom)));
+                        }
+                    } else if let Some(f) = num("bid_fee") {
+                        if f != 0 {
+                            bad.push(format!("bid_fee={} reported without a bid-fee account", f));
+                        }
+                    }
+                }
+            }
+            _ => {}
+        }
+        if !bad.is_empty() {
+            self.flag(&["C17"], "C17.reported_vs_settled", kind, "", bad.join("; "));
         }
     }
 
